@@ -4,8 +4,8 @@ from gen_util import *
 from srp_cases import *
 import pyref
 
-MODULES = ["WowSrp.Props.C02", "WowSrp.Props.C02Password", "WowSrp.Props.Source.C02", "WowSrp.Props.Source.Structural.C02", "WowSrp.Props.Source.Glue.Srp", "WowSrp.Props.Source.Shape.C02", "WowSrp.Props.Source.HashesSrp", "WowSrp.Props.Source.ApiIntoServer", "WowSrp.Props.Source.ApiClient", "WowSrp.Props.Source.C13Ctors", "WowSrp.Props.Source.ApiLinkedLogin"]
-THEOREMS = ["C02_server_eq", "C02_server_iff", "C02_server_error", "C02_server_panic", "C02_client_eq", "C02_client_iff", "C02_client_error", "C02_M1_layout", "C02_client_M1", "C02_changed_bit_refused", "C02_flipped_M1_refused", "C02_changed_bit_refused_M2", "C02_flipped_M2_refused", "C02_changed_field_gives_collision", "C02_changed_username_gives_collision", "C02_changed_field_accepted_gives_collision", "C02_wrong_password_partial", "C02_source_whole_array_equality", "C02_source_layout_M1", "C02_source_structural_impls", "C02_source_glue_srp", "C02_accepted_text_inj", "C02_x_collision", "C02_residual_is_congruence", "C02_wrong_password_three_way_of_text", "C02_wrong_password_three_way", "C02_interleave_collision", "C02_session_key_collision", "C02_wrong_username_collision", "C02_wrong_username_three_way", "C02_source_shapes", "C02_translated_client_proof", "C02_translated_server_proof", "C02_translated_calculate_x", "C02_translated_into_server", "C02_translated_verify_server_proof", "C13_source_constructors_delegate", "C02_linked_into_server", "C02_translated_into_server_signature", "C03_translated_client_signatures"]
+MODULES = ["WowSrp.Props.C02", "WowSrp.Props.C02Password", "WowSrp.Props.Source.C02", "WowSrp.Props.Source.Structural.C02", "WowSrp.Props.Source.Glue.Srp", "WowSrp.Props.Source.Shape.C02", "WowSrp.Props.Source.HashesSrp", "WowSrp.Props.Source.ApiIntoServer", "WowSrp.Props.Source.ApiClient", "WowSrp.Props.Source.C13Ctors", "WowSrp.Props.Source.ApiLinkedLogin", "WowSrp.Props.Source.ApiLinkedClient"]
+THEOREMS = ["C02_server_eq", "C02_server_iff", "C02_server_error", "C02_server_panic", "C02_client_eq", "C02_client_iff", "C02_client_error", "C02_M1_layout", "C02_client_M1", "C02_changed_bit_refused", "C02_flipped_M1_refused", "C02_changed_bit_refused_M2", "C02_flipped_M2_refused", "C02_changed_field_gives_collision", "C02_changed_username_gives_collision", "C02_changed_field_accepted_gives_collision", "C02_wrong_password_partial", "C02_source_whole_array_equality", "C02_source_layout_M1", "C02_source_structural_impls", "C02_source_glue_srp", "C02_accepted_text_inj", "C02_x_collision", "C02_residual_is_congruence", "C02_wrong_password_three_way_of_text", "C02_wrong_password_three_way", "C02_interleave_collision", "C02_session_key_collision", "C02_wrong_username_collision", "C02_wrong_username_three_way", "C02_source_shapes", "C02_translated_client_proof", "C02_translated_server_proof", "C02_translated_calculate_x", "C02_translated_into_server", "C02_translated_verify_server_proof", "C13_source_constructors_delegate", "C02_linked_into_server", "C02_translated_into_server_signature", "C03_translated_client_signatures", "C02_linked_verify_server_proof"]
 RULE = ("per baseline session (shared injected salt, a, b): all 160 single-bit changes of M1 and of M2, every single-bit change of A, "
         "of B and of the salt (3 x 256), other passwords / usernames including case-only variants (which must succeed), prefixes, "
         "suffixes; decision and both error fields recomputed independently. distinct = distinct lines; non-trivial = perturbed cases")
